@@ -232,3 +232,25 @@ pub fn c16_cell_passed_pawn() {
     kani::cover!(w && theirs != 0);
     kani::cover!(!w);
 }
+
+/// mobility / king-safety, per side and per officer kind: the term of `side` on P equals the term of the other side on mirror(P),
+/// when `side` has at most one officer and it is of kind `kind` (0 = no officer at all: the pure king-zone term); every placement of
+/// everything else (pawns, the other side's men, kings) is symbolic. The whole term is the sum over the officers (loops in
+/// mobility_and_opp_king_safety_for) plus the king-zone count, which is decided here for the single-officer attack set.
+pub fn mobility_one(kind: usize, side: u8) {
+    let p = pos::any_valid();
+    let c = side as usize;
+    let mut k = 1;
+    while k < 5 {
+        if k == kind { kani::assume(p.pcs[c][k].count_ones() <= 1); } else { kani::assume(p.pcs[c][k] == 0); }
+        k += 1;
+    }
+    #[cfg(test)] show(&p);
+    let (g, gm) = (pos::game_of(&p), pos::game_of(&pos::mirror(&p)));
+    let a = ea::mobility_side_term(&g, pos::player_of(c));
+    let b = ea::mobility_side_term(&gm, pos::player_of(1 - c));
+    assert!(a == b);
+    kani::cover!(a != PhasedEval::ZERO);
+    std::mem::forget(g);
+    std::mem::forget(gm);
+}
